@@ -250,6 +250,8 @@ def main():
     for k in ids:
         if k not in impl or k not in model:
             raise Machinery('case %s missing from an output' % k)
+        if byid[k].split(' ', 2)[1:2] == ['T']:
+            continue          # concurrent C-API runs: judged by the linearisation monitor, not replayed on the model
         if impl[k] != model[k]:
             diffs.append(k)
     # property monitors judge the implementation's own observations (independent of the model)
